@@ -265,6 +265,13 @@ class Gen:
                         'for i in input.iter() { u32::from(*i).write_options(writer, endian, ())?; } Ok(())'}
                     if rb not in WORD_READERS: raise TranslateError(where + ' word-list reader changed: ' + rb[:200])
                     if wb not in WORD_WRITERS: raise TranslateError(where + ' word-list writer changed: ' + wb[:200])
+                    if p == 'binrw_parse_mal_allowed_mods':
+                        # the writer aborts (unreachable!) on a vehicle that is not a mod: what keeps one out of the set is the private field
+                        # plus the guard in Mal::insert - both are part of what the model's "every entry is a 32-bit word" rests on
+                        if re.search(r'pub(\([^)]*\))?\s+%s\s*:' % fname, src): raise TranslateError(where + ' the allowed-mods set became a visible field')
+                        ib = norm_ws(find_block(src, r'pub fn insert\(&mut self, vehicle: Vehicle\) -> Result<bool, Error>\s*\{'))
+                        if ib != 'match vehicle { Vehicle::Mod(_) => Ok(self.allowed_mods.insert(vehicle)), _ => Err(Error::VehicleNotAMod), }':
+                            raise TranslateError(where + ' the guard of Mal::insert (mods only) changed: ' + ib[:200])
                     tail = ('words', fname, br['args'])
                 else:
                     raise TranslateError('%s: parse_with=%r write_with=%r' % (where, p, w))
